@@ -50,8 +50,8 @@ for p, w in pending.items():
         na.append((p, f"not claimed yet: the {w} serving this property (DESIGN.md section 5) is not built at this commit"))
 
 NOTE = ("Trusted: SimHeap, the interpreter's model (built from the documented safety contracts), the reference models, rustc. Sampling, not enumeration. "
-        "Bounds: arena world <= 120 operations per run, nesting <= 7, 32 settings families x 5 minimum alignments, 5 base-allocator kinds, 5 grant policies; "
-        "collection world <= 80 operations per run, length <= 60, 6 settings x 3 of 5 element types (1/1, 4/4, 24/8, 16/16, zero-sized) x 5 vector kinds; string world <= 60 operations per run, <= 200 bytes, 4 settings x 4 string kinds; lock-step world <= 100 step pairs per run, 12 settings, 6 element types; pool world 2-5 threads x 1-4 rounds, one schedule per run (shuttle does not shrink schedules: minimisation shrinks rounds and threads).")
+        "Bounds: arena world <= 120 operations per run, nesting <= 7, 32 settings families x 5 minimum alignments (typed entry points on 16 of them), 5 base-allocator kinds, 5 grant policies; "
+        "collection world <= 80 operations per run, length <= 60, 7 settings x 3 of 5 element types (1/1, 4/4, 24/8, 16/16, zero-sized) x 5 vector kinds; string world <= 60 operations per run, <= 200 bytes, 4 settings x 4 string kinds; lock-step world <= 100 step pairs per run, 12 settings, 6 element types; pool world 2-5 threads x 1-4 rounds, one schedule per run (shuttle does not shrink schedules: minimisation shrinks rounds and threads).")
 checks = []
 for p in sorted(claims):
     eng, ref, text, tech = claims[p]
